@@ -211,6 +211,7 @@ type fn struct {
 }
 
 type session struct {
+	ncalls int // calls made so far (limits are added to every other context definition)
 	s      *gl.Sess
 	fx     *fixture
 	prod   *rt.Table // produced values, made on demand
@@ -865,6 +866,18 @@ const missingFlags = "missing flags: "
 func (se *session) call(f *fn, s int, spelling string, tuple rt.Value) callResult {
 	se.s.Trace = nil
 	def := rt.RuntimeContextDef{RequiredFlags: flagsOf(s)}
+	// every other call the definition also carries the hard limits whose flags the
+	// set already contains (a limit implies its flag, so the required set is the
+	// same): flags and limits given together must both take effect
+	se.ncalls++
+	if se.ncalls%2 == 0 {
+		if s&1 != 0 {
+			def.HardLimits.Cpu = 1 << 40
+		}
+		if s&2 != 0 {
+			def.HardLimits.Memory = 1 << 40
+		}
+	}
 	res := callResult{entered: -1}
 	if spelling == "go-direct" || spelling == "go-pushcontext" {
 		at := tuple.AsTable()
